@@ -2,7 +2,7 @@
 import numpy as np
 
 from props import families
-from vlib import enc
+from vlib import cachetap, enc
 
 MAXLEN = 400
 
@@ -58,16 +58,23 @@ def observe(fam, obj, a):
 
 
 def run_case(c):
+    if not cachetap.STATE["installed"]:
+        cachetap.install()
     fam = families.FAMILIES[c["family"]]
     a = dict(families.INIT[c["family"]])
     obj = fam.build(a)
     events = [{"op": "construct", "abs": dict(a)}]
+    cachetap.drain()
 
     def obs_event():
         o, x = observe(fam, obj, a)
+        lk = cachetap.drain()
         twin = fam.build(a)
         to, tx = observe(fam, twin, a)
-        return {"op": "observe", "abs": dict(a), "obs": o, "x": x, "twin": to, "tx": tx}
+        tlk = cachetap.drain()
+        return {"op": "observe", "abs": dict(a), "obs": o, "x": x, "twin": to, "tx": tx,
+                "hits": lk["hits"] + tlk["hits"], "misses": lk["misses"] + tlk["misses"],
+                "stale": lk["stale"] + ["twin:" + t for t in tlk["stale"]]}
 
     events.append(obs_event())
     for m, v in c["hist"]:
@@ -139,6 +146,12 @@ def main(ctx):
     ctx.extra["queries_per_family"] = {}
     for r in recs:
         ctx.extra["queries_per_family"].setdefault(r["family"], len(r["events"][1]["obs"]))
+    evs = [e for r in recs for e in r.get("events", []) if e.get("op") == "observe"]
+    ctx.extra["cache_lookups"] = {"hits_shadow_evaluated": sum(e["hits"] for e in evs),
+                                  "misses": sum(e["misses"] for e in evs)}
+    if evs and ctx.extra["cache_lookups"]["hits_shadow_evaluated"] == 0:
+        from vlib.core import Machinery
+        raise Machinery("the cache lookup hook reported no hit at all: NoStaleHit would be vacuous")
     ctx.validate("Val_C01", "Val_C01", recs, nontrivial=_nontrivial, xmx="4g")
 
 
